@@ -59,26 +59,30 @@ type World struct {
 	oldProbe  http.RoundTripper
 	logBuf    *lockedBuffer
 
-	mu          sync.Mutex
-	targets     map[string]*FakeTarget
-	trs         []*http.Transport
-	ids         map[any]int
-	idn         map[string]int
-	hcs         map[*server.HealthCheck]bool
-	inflightRid map[any]string
-	stop        chan struct{}
-	wg          sync.WaitGroup
-	parkSet     map[string]bool
-	lanesLeft   int
-	reqsOpen    int
-	tgtOf       map[*server.Target]string
-	cmdDone     map[string]chan struct{}
-	extra       KV
-	hmu         sync.RWMutex
-	echo        echoStore
-	nclaims     int
-	closers     []func()
-	quiet       atomic.Bool
+	mu             sync.Mutex
+	targets        map[string]*FakeTarget
+	trs            []*http.Transport
+	ids            map[any]int
+	idn            map[string]int
+	hcs            map[*server.HealthCheck]bool
+	inflightRid    map[any]string
+	autoAfterBurst bool
+	barrierPts     map[string]bool
+	burstGen       atomic.Int64
+	lined          atomic.Int64
+	stop           chan struct{}
+	wg             sync.WaitGroup
+	parkSet        map[string]bool
+	lanesLeft      int
+	reqsOpen       int
+	tgtOf          map[*server.Target]string
+	cmdDone        map[string]chan struct{}
+	extra          KV
+	hmu            sync.RWMutex
+	echo           echoStore
+	nclaims        int
+	closers        []func()
+	quiet          atomic.Bool
 }
 
 // claims: requests currently registered at targets (claims minus ends), from the hooks.
@@ -289,6 +293,17 @@ func (w *World) run(scn int) {
 		sched = newPCT(w.rng, d, 200)
 	case "freeze":
 		sched = newFreeze(w.rng)
+	case "barrier":
+		pts := map[string]bool{}
+		for _, x := range plan.Barrier {
+			pts[x] = true
+		}
+		w.barrierPts = pts
+		bs := &barrierSched{rng: w.rng, points: pts, n: plan.BarrierN, after: plan.BarrierAfterMs, now: w.rec.Now}
+		if plan.BarrierFree {
+			bs.fired = func() { w.autoAfterBurst = true }
+		}
+		sched = bs
 	case "guided":
 		sched = &guidedSched{list: plan.Decisions, ctl: w.ctl, rng: w.rng}
 	case "replay":
@@ -357,8 +372,13 @@ func (w *World) run(scn int) {
 			w.ctl.Decisions = append(w.ctl.Decisions, opts[i])
 			if opts[i] == "burst" {
 				w.rec.Emit("x_burst", nil)
+				w.lined.Store(0)
+				w.burstGen.Add(1)
 				for _, p := range ps {
 					w.ctl.release(p)
+				}
+				if w.autoAfterBurst {
+					w.ctl.SetAuto(true) // nothing parks any more: the rest of the scenario runs on the real scheduler
 				}
 			} else if opts[i] == "advance" {
 				select {
@@ -546,6 +566,15 @@ func (w *World) onYield(point string, objs ...any) {
 		return
 	}
 	w.ctl.Park(point, actor, true)
+	if w.barrierPts != nil && (w.barrierPts[point] || w.barrierPts[point+"@"+actor]) && w.burstGen.Load() > 0 {
+		// released by a barrier burst: line the contenders up on the real clock, so that the code after the hook
+		// starts within nanoseconds on all of them
+		gen := w.burstGen.Load()
+		w.lined.Add(1)
+		t0 := rtNow()
+		for w.lined.Load() < int64(w.plan.BarrierN) && w.burstGen.Load() == gen && rtNow()-t0 < 200000 {
+		}
+	}
 }
 
 func (w *World) onEmit(event string, objs ...any) {
